@@ -31,6 +31,7 @@ func (x *vc) functypeContract(t types.Type) *funcContract {
 
 func (x *vc) call(fr *frame, st *state, in ssa.CallInstruction, pos string) Val {
 	cc := in.Common()
+	x.curCall = in
 	var resT types.Type
 	if v := in.Value(); v != nil {
 		resT = v.Type()
@@ -134,6 +135,7 @@ func (x *vc) callStatic(fr *frame, st *state, callee *ssa.Function, binds []Val,
 		for _, p := range callee.Params {
 			names = append(names, p.Name())
 		}
+		x.pendingBinds = binds
 		return x.applyContract(fr, st, fc, callee, callee.Signature, args, names, pos, shortFn(callee), resT)
 	}
 	if v, ok := x.stdlibModel(fr, st, callee, args, resT, pos); ok {
@@ -269,7 +271,22 @@ func (x *vc) applyContract(fr *frame, st *state, fc *funcContract, callee *ssa.F
 		}
 		env.vars[fmt.Sprintf("arg%d", i)] = a
 	}
+	// a closure under contract: its captured variables under their source names (held by address)
+	if callee != nil && len(x.pendingBinds) == len(callee.FreeVars) {
+		for i, fv := range callee.FreeVars {
+			b := x.pendingBinds[i]
+			if _, isPtr := fv.Type().Underlying().(*types.Pointer); isPtr && b.T != "" {
+				env.vars[fv.Name()] = x.load(st, b)
+			} else {
+				env.vars[fv.Name()] = b
+			}
+		}
+	}
+	x.pendingBinds = nil
 	for k, r := range fc.requires {
+		if r.tag == "lemma" {
+			continue // derived inside the callee's own verification
+		}
 		g := x.evalBool(env, r.expr)
 		tag := what
 		if r.tag != "" {
@@ -373,7 +390,7 @@ func (x *vc) applyContract(fr *frame, st *state, fc *funcContract, callee *ssa.F
 	}
 	x.bindResults(post, sig, res)
 	for _, e := range fc.ensures {
-		if strings.Contains(e.text, "ret(") {
+		if strings.Contains(e.text, "ret(") || e.tag == "ghost" {
 			// a postcondition phrased over the callee's own inner calls means nothing at its call sites: not assumed there
 			continue
 		}
@@ -659,6 +676,53 @@ func (x *vc) stdlibModel(fr *frame, st *state, callee *ssa.Function, args []Val,
 		return v, true
 	}
 	switch name {
+	case "sort.SliceStable", "sort.Slice":
+		// sort.Slice[Stable](s, less): calls less(i, j) with 0 <= i, j < len(s) on permutations of s and leaves s a
+		// permutation of its elements (stable: trusted). A less closure under contract must accept every such call:
+		// its preconditions are obligations for arbitrary in-range i, j on an arbitrary permutation.
+		x.trusted["sort.Slice/SliceStable: permutes the slice using only less(i, j) with indices in range; stable sorting proper is the library's"] = true
+		var slT *types.Slice
+		var sl Val
+		if x.curCall != nil && len(x.curCall.Common().Args) == 2 {
+			if mi, ok := x.curCall.Common().Args[0].(*ssa.MakeInterface); ok {
+				if slT, _ = mi.X.Type().Underlying().(*types.Slice); slT != nil {
+					sl = x.value(fr, st, mi.X)
+				}
+			}
+		}
+		if slT == nil || sl.T == "" {
+			return Val{}, false
+		}
+		arrName, arrSort := x.elemArr(st, slT.Elem())
+		old := x.heapArr(st, arrName, arrSort)
+		// permutation: same multiset is not expressible cheaply; what contracts use is: every element is an old element
+		// and every old element is still present (pi, its inverse: uninterpreted index maps)
+		x.havoc(st, &modSet{arrays: map[string][]string{arrName: {app("sl_arr", sl.T)}}}, "sort.Slice permutes the slice")
+		cur := st.heap[arrName]
+		pi, inv := x.freshName("perm"), x.freshName("perminv")
+		x.decls = append(x.decls, fmt.Sprintf("(declare-fun %s (Int) Int)", pi), fmt.Sprintf("(declare-fun %s (Int) Int)", inv))
+		elem := func(arr, k string) string {
+			return app("select", app("select", arr, app("sl_arr", sl.T)), app("+", app("sl_off", sl.T), k))
+		}
+		x.assume(st.guard, fmt.Sprintf("(forall ((k Int)) (! (=> (and (<= 0 k) (< k (sl_len %s))) (and (<= 0 (%s k)) (< (%s k) (sl_len %s)) (= (%s (%s k)) k) (= %s %s))) :pattern ((%s k)) :pattern (%s)))",
+			sl.T, pi, pi, sl.T, inv, pi, elem(cur, "k"), elem(old, "("+pi+" k)"), pi, elem(cur, "k")))
+		x.assume(st.guard, fmt.Sprintf("(forall ((k Int)) (! (=> (and (<= 0 k) (< k (sl_len %s))) (and (<= 0 (%s k)) (< (%s k) (sl_len %s)) (= (%s (%s k)) k))) :pattern ((%s k))))",
+			sl.T, inv, inv, sl.T, pi, inv, inv))
+		less := args[1]
+		if less.Fn != nil {
+			if fc := x.p.cons.get(fnKey(less.Fn)); fc != nil {
+				i := x.freshVal("sort_i", intT, st)
+				j := x.freshVal("sort_j", intT, st)
+				pre := st.clone()
+				pre.guard = and(st.guard, app("<=", "0", i.T), app("<", i.T, app("sl_len", sl.T)), app("<=", "0", j.T), app("<", j.T, app("sl_len", sl.T)))
+				x.pendingBinds = less.Bind
+				x.calleesByContract[fnKey(less.Fn)] = true
+				x.applyContract(fr, pre, fc, less.Fn, less.Fn.Signature, []Val{i, j}, []string{less.Fn.Params[0].Name(), less.Fn.Params[1].Name()}, pos, shortFn(less.Fn), types.Typ[types.Bool])
+			} else {
+				x.note("sort.Slice: less function %s has no contract: its calls are not checked", fnKey(less.Fn))
+			}
+		}
+		return Val{}, true
 	case "unicode/utf8.DecodeRuneInString":
 		s := args[0]
 		for k := 0; k < 4; k++ {
